@@ -109,9 +109,26 @@ func haveBins() error {
 
 // newScratchTree creates a scratch build directory over src (a directory with
 // apparmor.d, dists, systemd, share), using symlinks.
-func newScratchTree(src string) (string, error) {
+func newScratchTree(src string) (string, error) { return newScratchTreeIn(refScratch(), src) }
+
+// otherFilesystem: a writable directory on another kind of filesystem than the scratch
+// directory (tmpfs lists a directory in another raw order than ext4), "" if there is none.
+func otherFilesystem() string {
+	base := "/dev/shm"
+	if st, err := os.Stat(base); err != nil || !st.IsDir() {
+		return ""
+	}
+	probe := filepath.Join(base, fmt.Sprintf("verif-probe-%d", os.Getpid()))
+	if err := os.MkdirAll(probe, 0o755); err != nil {
+		return ""
+	}
+	os.RemoveAll(probe)
+	return base
+}
+
+func newScratchTreeIn(base, src string) (string, error) {
 	n := atomic.AddInt64(&buildSeq, 1)
-	dir := filepath.Join(refScratch(), fmt.Sprintf("build-%d-%d", os.Getpid(), n))
+	dir := filepath.Join(base, fmt.Sprintf("verif-build-%d-%d", os.Getpid(), n))
 	if err := os.MkdirAll(filepath.Join(dir, "debian"), 0o755); err != nil {
 		return "", err
 	}
@@ -147,7 +164,11 @@ func BuildShipped(c Config, prepareOnly bool) (*Build, error) {
 }
 
 func BuildFrom(src string, c Config, prepareOnly bool) (*Build, error) {
-	dir, err := newScratchTree(src)
+	return BuildFromIn(refScratch(), src, c, prepareOnly)
+}
+
+func BuildFromIn(base, src string, c Config, prepareOnly bool) (*Build, error) {
+	dir, err := newScratchTreeIn(base, src)
 	if err != nil {
 		return nil, err
 	}
